@@ -17,7 +17,7 @@ META = dict(
                 "x_1..x_n (each in [0,u]) and every tuning parameter as z3 reals over their documented ranges; the float model tracks "
                 "NaN/inf exactly. Claims per configuration: len(history)=n, every entry and the overall p finite, not NaN, in [0,1]; "
                 "overall = min(history) (random order) or history[-1]; no exception.",
-    bounds={"quick": {"n": [1, 2, 3], "N": "n, n+1, n+3, 50, inf", "ut": ["plur", "super", "cmp10"]},
+    bounds={"quick": {"n": "1, 2, 3 (kaplan_kolmogorov also 4)", "N": "n, n+1, n+3, 50, inf", "ut": ["plur", "super", "cmp10"]},
             "thorough": {"n": [1, 2, 3, 4], "N": "n, n+1, n+3, 50, inf", "ut": list(nnm.UT)}},
     outside=["samples longer than the bound", "floating-point rounding, overflow and underflow (exact reals + IEEE specials)",
              "u,t outside the grid"],
@@ -32,7 +32,7 @@ def cells(tier):
     out = []
     ns = [1, 2, 3] if tier == "quick" else [1, 2, 3, 4]
     for m in nnm.METHODS:
-        for n in ns:
+        for n in (ns + [4] if (tier == "quick" and m[0] == "kaplan_kolmogorov") else ns):      # (0*inf needs four draws; these cells are cheap)
             if tier == "thorough" and n == 4 and m[2] in ("shrink_trunc", "agrapa"):
                 continue
             for N in nnm.n_grid(m, n):
